@@ -8,6 +8,7 @@ LEVEL = 'model_checking'
 SPECS = [
     ('c07::c07_args_first', 'category (16, void apart) x direction (4) x method oneway (2), single argument: count, kind and range of every Error', 'quick', ['c07']),
     ('c07::c07_void_arg_oneway_rule', 'void argument: the oneway rule still applies', 'quick', ['c07']),
+    ('c10::c10_propagation_2', 'the flag the argument check sees is the propagated one: interface oneway x 2 members x {const, method(oneway?)} (shared with C10)', 'quick', ['c07']),
     ('c07::c07_inherited_oneway', 'oneway inherited from the interface (set_up_oneway_interface then check_method): category x direction x interface oneway x method oneway', 'quick', ['c07']),
 ]
 
@@ -21,4 +22,5 @@ def check(run):
     run.assumptions += ['stub: alloc::fmt::format -> String::new()', 'diagnostic vector pre-sized (Vec::with_capacity) in the harness', 'void as an argument type: the statement is silent on the type rule; only the oneway rule is asserted']
     run.extra['explanation'] = 'Kani/CBMC decides the complete finite product against a reference table written from the property; the pipeline order is decided on the MIR CFG of validate; native sweep of 544 source-level cases confirms counterexamples.'
     ksupport.decide(run, 'C07', SPECS, {'c07': native.sweep_c07})
+    pipeline.per_method_obligation(run)
     pipeline.order_obligations(run, ['resolve_types', 'set_up_oneway_interface', 'check_methods'])
